@@ -178,6 +178,9 @@ package handler
 //@   call executeCallbacks#1: assert arg_strict == strict && arg_next == next
 //@   ensures implies(d1 || dc, pe == nil && vc == httpx.CodeSignaturePass)
 //@   ensures implies(strict, !d2)
+// the four methods of the statement's known finding F9 are NOT among the unverified ones: DELETE, GET, POST and PUT never
+// take the default arm (so F9 stays confined to the other methods and any widening of it is a new violation)
+//@   ensures implies(old(r.Method) == "DELETE" || old(r.Method) == "GET" || old(r.Method) == "POST" || old(r.Method) == "PUT", !d2)
 
 // ---------------------------------------------------------------------------------------------
 // C18 cryption middleware: the wrapped handler only ever gets the buffering writer (never the client's writer), it runs
